@@ -28,10 +28,12 @@ def gen_cases(ctx):
         runs = []
         for thr in (0.0, 1e9):       # never converged / always converged
             runs += [{"kind": "detector", "thr": thr}, {"kind": "detector", "thr": thr, "mx": T - 10}, {"kind": "detector", "thr": thr, "mn": base + 5, "mx": T - 4},
-                     {"kind": "detector", "thr": thr, "mn": base + 7}, {"kind": "detector", "thr": thr, "mx": T + 20}, {"kind": "detector", "thr": thr, "mn": base + 9, "mx": base + 2}]
+                     {"kind": "detector", "thr": thr, "mn": base + 7}, {"kind": "detector", "thr": thr, "mx": T + 20}, {"kind": "detector", "thr": thr, "mn": base + 9, "mx": base + 2},
+                     {"kind": "detector", "thr": thr, "mx": 0}]
         for thr in (1e-30, 1e30, 1e-9, 1e-7):
             runs += [{"kind": "energy", "thr": thr}, {"kind": "energy", "thr": thr, "mx": 17}, {"kind": "energy", "thr": thr, "mn": 9},
-                     {"kind": "energy", "thr": thr, "mn": 9, "mx": 5}, {"kind": "energy", "thr": thr, "mn": 0, "mx": T + 7}]
+                     {"kind": "energy", "thr": thr, "mn": 9, "mx": 5}, {"kind": "energy", "thr": thr, "mn": 0, "mx": T + 7},
+                     {"kind": "energy", "thr": thr, "mn": 0}, {"kind": "energy", "thr": thr, "mx": 0}, {"kind": "energy", "thr": thr, "mn": 5, "mx": 0}]
         if not ctx.quick:
             for _ in range(10):
                 kind = ctx.rng.choice(["energy", "detector"])
@@ -49,6 +51,19 @@ def run_cases(ctx, cases):
     return core.run_impl_sharded(IMPL, cases, shard=len(cases), timeout=2400)
 
 
+def _resolved(case, out, r):
+    """(min_steps, max_steps) as the documentation resolves them from what the USER passed (an explicit 0 is a bound),
+    as Coq option literals + defaults; never taken from the implementation's own setup()."""
+    T = out["T"]
+    d_mn = round(0.1 * T) if r["r"]["kind"] == "energy" else (case["prev_periods"] + 1) * case["period_steps"]
+    g = r["r"]
+    return (g["mn"] if g.get("mn") is not None else d_mn, g["mx"] if g.get("mx") is not None else T, d_mn, T)
+
+
+def _opt(v):
+    return "None" if v is None else f"(Some {zlit(v)})"
+
+
 def coq_expr(case, out):
     if "error" in out:
         return "false"
@@ -58,8 +73,11 @@ def coq_expr(case, out):
         if "error" in r:
             continue
         tr = f"(fun s : Z => nth (Z.to_nat s) {lst(r['trace'], blit)} false)"
-        cond = (f"cond_energy Z (fun s => s) {zlit(r['mn'])} {zlit(r['mx'])} {tr}" if r["r"]["kind"] == "energy"
-                else f"cond_detector Z (fun s => s) {zlit(r['mn'])} {zlit(r['mx'])} {tr}")
+        _, _, d_mn, d_mx = _resolved(case, out, r)
+        mn = f"(setup_bound {_opt(r['r'].get('mn'))} {zlit(d_mn)})"
+        mx = f"(setup_bound {_opt(r['r'].get('mx'))} {zlit(d_mx)})"
+        cond = (f"cond_energy Z (fun s => s) {mn} {mx} {tr}" if r["r"]["kind"] == "energy"
+                else f"cond_detector Z (fun s => s) {mn} {mx} {tr}")
         parts.append(f"Z.eqb (run_until Z Z.succ {zlit(T)} ({cond}) 0%Z) {zlit(r['t'])}")
     return "(" + " && ".join(parts or ["false"]) + ")%bool"
 
@@ -73,7 +91,11 @@ def predicate(case, out):
             if "min_steps must be larger" in r["error"] or "greater than the number of time steps" in r["error"]:
                 continue
             return ("run-error:" + str(r["r"]), r["error"])
-        t, mn, mx, tr = r["t"], r["mn"], r["mx"], r["trace"]
+        t, tr = r["t"], r["trace"]
+        mn, mx, _, _ = _resolved(case, out, r)
+        if (r["mn"], r["mx"]) != (mn, mx):
+            return (f"setup-bounds:{r['r']['kind']};given=({r['r'].get('mn')},{r['r'].get('mx')})",
+                    f"setup() resolved (min_steps, max_steps) to ({r['mn']}, {r['mx']}); the user's values / documented defaults give ({mn}, {mx})")
         key = f"{r['r']['kind']};thr={r['r']['thr']};mn={mn};mx={mx};T={T}"
         if t > min(max(mx, 0), T):
             return ("stops-late:" + key, f"stopped at {t} > min(max_steps={mx}, total={T})")
